@@ -125,8 +125,10 @@ def work(name, src, payload):
         return {'evaluations': 0, 'distinct': [], 'failures': [], 'samples': [], 'counts': {}}
 
     def fail(key, what, **kw):
-        if len(failures) < 10:
-            failures.append(dict(key=f'C04.B.{key}', what=what, program=name, replayed=True, **kw))
+        from contracts.b_lib import room
+        ok, kn = room(failures, f'C04.B.{key}', 10)
+        if ok:
+            failures.append(dict(key=f'C04.B.{key}', what=what, program=name, replayed=True, _known=kn, **kw))
 
     for path, cat in targets:
         for trivia in ((), None):   # () = ('none', 'none'): nothing but the element itself may go
@@ -159,6 +161,16 @@ def work(name, src, payload):
                     continue
                 loc = tuple(node.bloc) if cat == 'stmt' else (tuple(node.pars()) if node.pars() else tuple(node.loc))
                 loc = loc[:4]
+                # comments between the element's own grouping parentheses and the element: the parentheses may go, a
+                # comment may not ("no comment is ever lost ... unless selected by the trivia option")
+                own_pars_comments = []
+                if cat == 'expr' and tuple(node.loc)[:4] != loc:
+                    il = tuple(node.loc)[:4]
+                    for t in old_tokens:
+                        if t.type == tokenize.COMMENT:
+                            s_ = (t.start[0] - 1, t.start[1])
+                            if (loc[0], loc[1]) <= s_ <= (loc[2], loc[3]) and not ((il[0], il[1]) <= s_ <= (il[2], il[3])):
+                                own_pars_comments.append(t.string.rstrip())
                 if op == 'remove' and path[-1][1] is None:
                     continue   # deleting an optional single field takes its dependent tokens along (`as e`, `from F`)
                 ev += 1
@@ -217,6 +229,12 @@ def work(name, src, payload):
                 new_tokens = toks(root.src)
                 if new_tokens is None:
                     continue
+                if own_pars_comments and op in ('replace', 'replace_self'):
+                    have = [t.string.rstrip() for t in new_tokens if t.type == tokenize.COMMENT]
+                    gone = [c for c in own_pars_comments if c not in have]
+                    if gone:
+                        fail(key + ':own_pars_comment', f'{op}({donor!r}, trivia={trivia}) at {path}: the comment {gone[0]!r} between '
+                             'the element and its own grouping parentheses is gone', src_after=root.src[:300])
                 o = sig(outside(old_tokens, loc), doc_tolerant=tol)
                 n = sig(outside(new_tokens, newloc), doc_tolerant=tol)
                 allowed = [] if trivia == () or loc is None else allowed_comment_loss(lines0, loc)
